@@ -114,6 +114,22 @@ pub fn gen(rng: &mut Rng, size: usize) -> Value {
     }
     let wr = rng.chance(1, 4);
     let mut m = crate::c01::gen_model(rng, size, wr);
+    let mut opts = opts;
+    if rng.chance(1, 3) {
+        // prefixes cut out of the map's own source names (any code-point length, multi-byte characters included)
+        let srcs: Vec<Value> = m["sources"].as_array().cloned().unwrap_or_default();
+        if !srcs.is_empty() {
+            let mut ps = vec![];
+            for _ in 0..1 + rng.below(3) {
+                let a = rng.pick(&srcs).as_array().unwrap().clone();
+                let k = rng.below(a.len() as u64 + 1) as usize;
+                // the one-character prefix "~" is the documented "common prefix of all sources" request: extension E03, not C09
+                if k == 1 && a[0] == json!(126) { continue; }
+                ps.push(Value::Array(a[..k].to_vec()));
+            }
+            opts["prefixes"] = json!(ps);
+        }
+    }
     m["op"] = json!("rewrite");
     m["opts"] = opts;
     m["how"] = json!("new");
